@@ -237,7 +237,11 @@ func (r *FeatureLocal) ApproveOrDenyWrite(msg *api.Message, err model.ErrorType)
 		if ok {
 			r.writeApprovalReceived[ski][*msg.RequestHeader.MsgCounter] = amount + 1
 		} else {
-			r.writeApprovalReceived[ski] = make(map[model.MsgCounterType]int)
+			// do not replace an existing map, it holds the approvals
+			// of the other pending writes of this device
+			if r.writeApprovalReceived[ski] == nil {
+				r.writeApprovalReceived[ski] = make(map[model.MsgCounterType]int)
+			}
 			r.writeApprovalReceived[ski][*msg.RequestHeader.MsgCounter] = 1
 		}
 		// do we have enough approve messages, if not exit
